@@ -239,6 +239,7 @@ class ExecBase:
         if oid not in st.lifted:
             st = st.copy()
             st.lifted = st.lifted + (oid,)
+            st.lens = {**st.lens, ref.get_id(): len(elems)}
             es = sort_of(ety)
             len0 = State().harr("L.len", z3.IntSort(), z3.IntSort())
             el0 = State().harr(f"L.elem:{es}", z3.IntSort(), z3.ArraySort(z3.IntSort(), es))
@@ -284,6 +285,7 @@ class ExecBase:
         ref, st = self.alloc(st)
         l = VList(ety, view, ref)
         if view == "seq":
+            st.lens = {**st.lens, ref.get_id(): len(elems)}
             st = st.hset("L.len", z3.Store(self._len_arr(st), ref, z3.IntVal(len(elems))))
             key, el = self._elem_arr(st, ety)
             inner = z3.Select(el, ref)
@@ -304,8 +306,7 @@ class ExecBase:
         if l.view == "bag":
             _, bg = self._bag_arr(st, l.elem)
             return z3.Select(bg, l.ref)
-        n = z3.simplify(z3.Select(self._len_arr(st), l.ref))
-        n = self._concrete_int(n, st)
+        n = self.known_len(l, st)
         if n is None:
             raise Unsupported("bag of a seq-view list of symbolic length")
         _, el = self._elem_arr(st, l.elem)
@@ -315,13 +316,25 @@ class ExecBase:
             inner = z3.Store(inner, t, z3.Select(inner, t) + 1)
         return inner
 
+    def known_len(self, l: VList, st: State) -> Optional[int]:
+        k = st.lens.get(l.ref.get_id())
+        if k is not None:
+            return k
+        return self._concrete_int(z3.Select(self._len_arr(st), l.ref), st)
+
+    def forget_len(self, l: VList, st: State) -> State:
+        if l.ref.get_id() in st.lens:
+            st = st.copy()
+            st.lens = {k: v for k, v in st.lens.items() if k != l.ref.get_id()}
+        return st
+
     def _concrete_int(self, term: Any, st: State) -> Optional[int]:
         term = z3.simplify(term)
         if z3.is_int_value(term):
             return term.as_long()
         # ask the path condition
         s = z3.Solver()
-        s.set("timeout", 1000)
+        s.set("timeout", 8000)
         s.add(*st.pc)
         if s.check() != z3.sat:
             return None
@@ -341,7 +354,7 @@ class ExecBase:
         if isinstance(coll, VList):
             if coll.view == "bag":
                 return VBool(z3.Select(self.list_bag(coll, st), to_term(x, coll.elem)) > 0)
-            n = self._concrete_int(z3.Select(self._len_arr(st), coll.ref), st)
+            n = self.known_len(coll, st)
             _, el = self._elem_arr(st, coll.elem)
             inner = z3.Select(el, coll.ref)
             xt = to_term(x, coll.elem)
